@@ -9,7 +9,7 @@ import (
 func init() {
 	register("C06", []string{"."}, runC06)
 	register("C07", []string{"."}, runC07)
-	propExplain["C06"] = "Decides the ordering/ownership clause of C06 in the commit pipeline: a batch is published only through the nil-error edges of prepare and apply; a large (flushable) batch receives its sequence number before it is queued where flushes and readers can find it; the applied flag is set before the publisher dequeues; only publish advances the visible sequence number (by CAS) and marks a batch applied; only the pipeline applies batches to memtables. Does not decide the lock-free queue's interleavings."
+	propExplain["C06"] = "Decides the ordering/ownership clause of C06 in the commit pipeline: a batch is published only through the nil-error edges of prepare and apply; a large (flushable) batch receives its sequence number before it is queued where flushes and readers can find it; the applied flag is set before the publisher dequeues; only publish advances the visible sequence number (by CAS) and marks a batch applied; only the pipeline applies batches to memtables. Also (O4) memTable.apply links a batch's range deletions and range keys into their skiplists before it invalidates the memtable's cached fragments, and does invalidate them. Does not decide the lock-free queue's interleavings."
 	propExplain["C07"] = "Decides the sequencing clause of C07: sequence-number allocation, enqueueing and the WAL write happen in that order inside one commitPipeline.mu region (WAL order = seqnum order = queue order); only the pipeline and Open/recovery write logSeqNum; the visible sequence number is ratcheted (CAS only on the false edge of new <= cur) and a committer is released only after the publish loop advanced it; Commit does not return before publish."
 }
 
@@ -45,6 +45,28 @@ func runC06(c *Ctx) {
 			Step{Name: "applied.Store(true)", M: AtomicOp(c.Field("C06.O3", "p.Batch.applied"), "Store")},
 			Step{Name: "dequeueApplied", M: CallTo("p.(*commitQueue).dequeueApplied")},
 		)
+	}
+	// C06.O4: memTable.apply links a batch's range deletions / range keys into their skiplists
+	// BEFORE it invalidates the memtable's cached fragments. The other order lets a reader rebuild
+	// (and cache, until the next invalidation) a fragment set that lacks part of the batch, which is
+	// then still missing after the batch is published.
+	if fn := c.Fn("C06.O4", "p.(*memTable).apply"); fn != nil {
+		for _, sp := range []struct{ cache, skl string }{{"rangeKeys", "rangeKeySkl"}, {"tombstones", "rangeDelSkl"}} {
+			inv := MethodOn("invalidate", "recv."+sp.cache)
+			add := MethodOn("Add", "recv."+sp.skl)
+			fact := sp.cache + "-not-invalidated-yet"
+			fl := NewFlow(c.P).KillAfter(fact, inv)
+			entry := emptyState()
+			entry.add(fact)
+			res := fl.Analyze(fn, entry)
+			c.noteFlow(fl)
+			n := c.Require("C06.O4", res, add, sp.skl+".Add precedes "+sp.cache+".invalidate", []string{fact})
+			if n == 0 {
+				c.Unresolved("C06.O4", "no "+sp.skl+".Add in memTable.apply")
+			}
+			c.Ob("C06.O4", fn, "apply invalidates the cached "+sp.cache+" fragments", c.P.Pos(fn.Pos()), len(instrs(fn, inv)) > 0,
+				"memTable.apply no longer invalidates "+sp.cache+": readers keep a fragment cache that lacks newly applied keys")
+		}
 	}
 	// C06.W1
 	c.Who("C06.W1", Or(MethodOn("Store", "visibleSeqNum"), MethodOn("Add", "visibleSeqNum"), MethodOn("Swap", "visibleSeqNum")),
